@@ -5,6 +5,7 @@ import hmac
 import json
 import logging
 import os
+import re
 
 import common
 from common import Case, sx, parse_sx
@@ -14,13 +15,23 @@ RULE = ("frame lists with lengths around 0/1/255/256/65535/65536 and random cont
         "positions for short streams, random otherwise); malformed streams (random bytes, command frames, truncations); "
         "heartbeat send/recv; request sequences (execute/complete/is_complete/kernel_info/comm/unknown) with valid "
         "signatures, single-bit corruptions and wrong keys, pushed through the real shell_listen.  A case is non-trivial "
-        "when it has at least one frame / request; distinct by payload.")
+        "when it has at least one frame / request; distinct by payload.  Round 4: greetings (valid / wrong signature, version, "
+        "mechanism / garbage / HTTP / truncated) x fragmentations through the real handshake; wire frame lists (identity "
+        "counts 0-6, delimiter missing / doubled / as identity, short, bad JSON / UTF-8, bad and non-hex signatures, extra "
+        "buffers) through deserialize_wire_msg and send; sessions of 1-18 messages over the real shell / control / iopub / stdin "
+        "listeners with every message type, malformed messages and pathological-but-legal code strings; housekeeping queues; "
+        "heartbeat pings; whole shell connections fed malformed byte streams next to a healthy connection.")
 ASSUMPTIONS = [
     "asyncio.StreamReader.read(k) returns a non-empty prefix of the buffered bytes (modelled by readChunk)",
     "hmac/hashlib are a MAC: modelled as an uninterpreted function `sign` (C19_auth is decision logic over it)",
     "json encoding/decoding and uuid/date header fields are masked, not modelled",
+    "round 4: whether a frame decodes as JSON, what the decoded request says, what AstEval.parse does with a code string (class of "
+    "the exception, its message test, its lineno) and the result of a cell are computed from the real objects and passed to the model",
+    "LinenoSane: a line number reported by CPython's parser lies inside the source (checked on every generated code string)",
 ]
 TRUSTED = ["tools/extract.py (ZMTP constants from the AST of send_multipart/send/recv)",
+           "tools/extractors/C19.py (reply tables and branch shapes of shell_handler / control_listen, greeting literals and read "
+           "sizes of handshake, send_cmd constants)",
            "harness/run_C19.py (in-memory streams, canonicalisation)",
            "modelled not verified: asyncio streams, hmac, json; the interpreter run of a cell is the parameter `run`"]
 
@@ -140,9 +151,200 @@ def gen_cases(rng, tier, search):
                                                        "execute_request", "comm_info_request"]),
                                   "cell": rng.choice([0, 1, 2, 4, 6]), "idents": rng.randrange(0, 3)} for _ in range(nb)],
                            "release_after": rng.randrange(0, nb + 1)}, None, tags=("interleave",)))
+    cases += gen_kernel_cases(rng, tier, search)
     for c in cases:
         c.line = None
     return cases
+
+
+# ====================================================================================================================
+# round 4: greeting, wire messages, every message type on every channel, housekeeping, malformed connections
+# ====================================================================================================================
+GREETING_OK = b"\xff" + b"\x00" * 8 + b"\x7f" + b"\x03" + b"\x00" + b"NULL" + b"\x00" * 16 + b"\x00" * 32
+READY_DEALER = (lambda b: bytes([4, len(b)]) + b)(b"\x05READY\x0bSocket-Type\x00\x00\x00\x06DEALER")
+
+PATHO = ["", " ", "   \n", "# only a comment", "\n\n\n", "\t", "x" * 20000, "'" + "y" * 3000 + "'", "\x00", "a\x00b", "'\ud800'",
+         "x = '\udfff'", "1+" * 6000 + "1", "-" * 6000 + "1", "a." * 3000 + "b", "(" * 300 + ")" * 300, "[" * 90 + "]" * 90,
+         "if x:", "if x:\n", "if x:  # c", "for i in x:\n  if y:", "class A:\n\n", "def f(:", "(1,", "\"\"\"abc", "x = (\n", "a\\",
+         "try:\n    pass", "while 1:\n    pass\n    ", "foo(\n1,\n2", "@dec", "x = [", "'abc", "if a:\n b\n  c", "if x:\n    y\n",
+         "def f():\n    return 1\n  ", "x = 1\n ", "é = 'ü'", "lambda: (yield)", "return 5", "\\", "0x", "1 +", "print('a'", "if x:\n\ty",
+         "with a as b:", "async def f():", "else:", "x = 1;", ";", "1 if", "if 1:\n  pass\nelse:", "\r\n", "a = 1\r\nb"]
+SHELL_TYPES = ["execute_request", "kernel_info_request", "complete_request", "is_complete_request", "comm_info_request",
+               "history_request", "comm_open", "comm_msg", "comm_close", "shutdown_request", "interrupt_request", "bogus_request",
+               "execute_reply", ""]
+CONTROL_TYPES = ["shutdown_request", "interrupt_request", "kernel_info_request", "debug_request", "shutdown_reply"]
+BAD_KINDS = ["nodelim", "short", "nosig", "badjson", "badsig"]
+SOCK_TYPES = [b"ROUTER", b"REP", b"PUB"]
+CONN_CASES = 40
+
+
+def rand_greeting(rng):
+    """(bytes, what was done to it)"""
+    g = bytearray(b"\xff" + rand_bytes(rng, 8) + b"\x7f" + bytes([rng.choice([3, 3, 3, 4, 255])]) + bytes([rng.randrange(256)])
+                  + b"NULL" + b"\x00" * 16 + rand_bytes(rng, 32))
+    what = rng.choice(["valid", "valid", "valid", "sig0", "sig9", "version", "mech", "mechpad", "garbage", "zeros", "http", "short"])
+    if what == "sig0":
+        g[0] = rng.choice([0, 1, 0xfe, 0x7f])
+    elif what == "sig9":
+        g[9] = rng.choice([0, 0x7e, 0xff, 1])
+    elif what == "version":
+        g[10] = rng.choice([0, 1, 2])
+    elif what == "mech":
+        g[12:32] = rng.choice([b"PLAIN" + b"\x00" * 15, b"CURVE" + b"\x00" * 15, b"null" + b"\x00" * 16, b"\x00" * 20])
+    elif what == "mechpad":
+        g[12:32] = (b"NULL" + b"\x00" * rng.randrange(0, 15) + b"\x01" + b"\x00" * 20)[:20]
+    elif what == "garbage":
+        g = bytearray(rand_bytes(rng, 64))
+    elif what == "zeros":
+        g = bytearray(64)
+    elif what == "http":
+        g = bytearray((b"GET / HTTP/1.1\r\nHost: x\r\n\r\n" + b"a" * 64)[:64])
+    elif what == "short":
+        g = g[:rng.randrange(0, 64)]
+    return bytes(g), what
+
+
+def greeting_valid(g):
+    """independent statement of the ZMTP 3.x NULL greeting grammar"""
+    return (len(g) == 64 and g[0] == 0xFF and g[9] == 0x7F and g[10] >= 3 and g[12:32] == b"NULL" + b"\x00" * 16)
+
+
+def gen_events(rng, patho_p=0.5):
+    n = rng.randrange(1, 7)
+    evs = []
+    bad_at = rng.randrange(n) if rng.random() < 0.3 else None
+    for k in range(n):
+        ch = rng.choice(["shell"] * 6 + ["control"] * 2 + ["iopub", "stdin"])
+        mt = rng.choice(SHELL_TYPES[:9] * 2 + SHELL_TYPES) if ch != "control" else rng.choice(CONTROL_TYPES)
+        if mt == "execute_request":
+            code = rng.randrange(len(CELLS))       # index into CELLS
+        else:
+            code = rng.choice(PATHO) if rng.random() < patho_p else CELLS[rng.randrange(len(CELLS))][0]
+        kind = "ok" if rng.random() < 0.85 else "extra"
+        if k == bad_at and ch in ("shell", "control"):
+            kind = rng.choice(BAD_KINDS)
+        evs.append({"ch": ch, "kind": kind, "mtype": mt, "code": code, "store": rng.random() < 0.8, "idents": rng.randrange(0, 4),
+                    "badvar": rng.randrange(4)})
+    return evs
+
+
+def gen_kernel_cases(rng, tier, search):
+    q = tier == "quick"
+    mul = 5 if search else 1
+    cases = []
+    # --- greetings through the real ZmqSocket.handshake
+    for _ in range((40 if q else 600) * mul):
+        g, what = rand_greeting(rng)
+        tail = rand_bytes(rng, rng.choice([0, 0, 1, 5, 40]))
+        stream = g + (tail if what != "short" else b"")
+        cuts = rng.choice(fragmentations(rng, len(stream), "quick", exhaustive_limit=0))
+        cases.append(Case({"kind": "hs", "type": rng.choice(SOCK_TYPES).decode(), "chunks": [hx(c) for c in cut(stream, cuts)],
+                           "what": what, "glen": len(g)}, None, tags=("hs", "hs-" + what)))
+    # --- wire messages through the real deserialize_wire_msg / send
+    for _ in range((120 if q else 1200) * mul):
+        nid = rng.choice([0, 0, 1, 1, 2, 3, 6])
+        ids = [rng.choice([b"id%d" % j, b"", b"\x00\x01", b"<IDS|MSG", b"<IDS|MSG> ", rand_bytes(rng, 5)]) for j in range(nid)]
+        hdr = json.dumps({"msg_id": "x", "msg_type": "kernel_info_request"}).encode()
+        frames = [hdr, b"{}", b"{}", b"{}"] + [rng.choice([b"buf", b"<IDS|MSG>", b"", b"\xff\xfe"]) for _ in range(rng.choice([0, 0, 0, 1, 2]))]
+        what = rng.choice(["ok", "ok", "ok", "nodelim", "short", "nosig", "badjson", "badutf8", "badsig", "nonhexsig", "delimident",
+                           "twodelim", "sigfirst4", "empty", "swapped"])
+        if what == "short":
+            frames = frames[:rng.randrange(0, 4)]
+        if what == "badjson" and len(frames) >= 4:
+            frames[rng.randrange(4)] = rng.choice([b"{not json", b"", b"{'a': 1}", b"[1,"])
+        if what == "badutf8" and len(frames) >= 4:
+            frames[rng.randrange(4)] = b'{"a": "\xff"}'
+        if what == "swapped" and len(frames) >= 4:
+            frames[0], frames[3] = frames[3], frames[0]
+        sig = sign(KEY, frames)
+        if what == "badsig":
+            sb = bytearray(sig)
+            i = rng.randrange(len(sb))
+            sb[i] = ord("0") if sb[i] != ord("0") else ord("1")
+            sig = bytes(sb)
+        if what == "nonhexsig":
+            sig = rng.choice([b"", b"zz", sig.upper(), sig[:-1], sig + b"0", b"\xff" * 64])
+        if what == "sigfirst4" and len(frames) > 4:
+            sig = sign(KEY, frames[:4])
+        wire = ids + [b"<IDS|MSG>", sig] + frames
+        if what == "nodelim":
+            wire = ids + [sig] + frames
+        if what == "nosig":
+            wire = ids + [b"<IDS|MSG>"]
+        if what == "delimident":
+            wire = [b"<IDS|MSG>"] + wire
+        if what == "twodelim":
+            wire = ids + [b"<IDS|MSG>"] + wire
+        if what == "empty":
+            wire = []
+        cases.append(Case({"kind": "des", "wire": [hx(f) for f in wire], "what": what}, None, tags=("des", "des-" + what)))
+    for _ in range((12 if q else 100) * mul):
+        cases.append(Case({"kind": "ser", "idents": [hx(rand_bytes(rng, rng.choice([0, 1, 5]))) for _ in range(rng.randrange(0, 4))],
+                           "mtype": rng.choice(["status", "x_reply"])}, None, tags=("ser",)))
+    # --- is_complete / complete decisions on code strings (real handler, one request each, session must stay alive)
+    codes = list(PATHO) + [c[0] for c in CELLS]
+    for _ in range((40 if q else 400) * mul):
+        base = rng.choice(codes)
+        if len(base) < 200 and rng.random() < 0.7:
+            base = base + rng.choice(["", "\n", "\n    ", "\n  ", ":", ":\n", " # c", "\n\n", "  ", "\n x:", "(", "\\"])
+        codes.append(base)
+    rng.shuffle(codes)
+    per = 12
+    for i in range(0, len(codes), per):
+        cases.append(Case({"kind": "code", "codes": codes[i:i + per]}, None, tags=("code",)))
+    # --- sessions: every message type on every channel, bad messages, shutdown
+    for _ in range((70 if q else 700) * mul):
+        cases.append(Case({"kind": "sess", "events": gen_events(rng)}, None, tags=("sess",)))
+    # every type once, in one session, then shutdown on control
+    allev = [{"ch": "shell", "kind": "ok", "mtype": mt, "code": (1 if mt == "execute_request" else "if x:"), "store": True, "idents": 2,
+              "badvar": 0} for mt in SHELL_TYPES] + \
+            [{"ch": "control", "kind": "ok", "mtype": mt, "code": "", "store": True, "idents": 1, "badvar": 0}
+             for mt in ["interrupt_request", "kernel_info_request", "shutdown_request", "shutdown_request"]] + \
+            [{"ch": "shell", "kind": "ok", "mtype": "kernel_info_request", "code": "", "store": True, "idents": 0, "badvar": 0}]
+    cases.append(Case({"kind": "sess", "events": allev}, None, tags=("sess", "sess-all-types")))
+    for bk in BAD_KINDS:
+        for ch in ("shell", "control"):
+            cases.append(Case({"kind": "sess", "events": [allev[1], dict(allev[0], ch=ch, kind=bk), allev[1]]}, None,
+                              tags=("sess", "sess-bad")))
+    # --- housekeeping queue
+    for _ in range((60 if q else 600) * mul):
+        n = rng.randrange(1, 14)
+        evs, reg = [], 0
+        for _i in range(n):
+            e = rng.choice(["register"] * 4 + ["unregister"] * 3 + ["stdout", "handshake", "shutdown", "external"])
+            if e == "unregister" and reg == 0:
+                e = "register"
+            reg += 1 if e == "register" else (-1 if e == "unregister" else 0)
+            evs.append(e)
+        cases.append(Case({"kind": "hk", "events": evs}, None, tags=("hk",)))
+    cases.append(Case({"kind": "hk", "events": ["register"] * 5 + ["unregister"] * 5 + ["shutdown", "external", "shutdown"]}, None,
+                      tags=("hk",)))
+    # --- heartbeat
+    for _ in range((15 if q else 150) * mul):
+        m = rand_bytes(rng, rng.choice([0, 1, 4, 255, 256, 300]))
+        parts = rng.choice([[b"", m], [m], [b"", m[:2], m[2:]]])
+        stream = py_encode(parts)
+        cuts = rng.choice(fragmentations(rng, len(stream), "quick", exhaustive_limit=0))
+        cases.append(Case({"kind": "hb", "chunks": [hx(c) for c in cut(stream, cuts)]}, None, tags=("hb",)))
+    # --- one shell connection fed a malformed byte stream, a healthy second connection next to it
+    for _ in range((CONN_CASES if q else CONN_CASES * 10) * mul):
+        cases.append(Case({"kind": "conn", "spec": gen_conn(rng)}, None, tags=("conn",)))
+    return cases
+
+
+def gen_conn(rng):
+    """a byte stream for one shell connection: greeting, READY, then messages with one thing wrong (or nothing)"""
+    g, gwhat = rand_greeting(rng) if rng.random() < 0.3 else (GREETING_OK, "valid")
+    msgs = []
+    nmsg = rng.randrange(1, 4)
+    fault = rng.choice(["none", "none", "truncate", "oversize", "more-last", "badjson", "nonhexsig", "replay", "cmd-bad", "nodelim",
+                        "short", "flip-byte", "cmd-mid"])
+    for _k in range(nmsg):
+        mt = rng.choice(SHELL_TYPES[:9])
+        msgs.append({"mtype": mt, "cell": rng.randrange(len(CELLS)), "idents": rng.randrange(0, 3), "store": rng.random() < 0.8})
+    return {"greeting": hx(g), "gwhat": gwhat, "ready": rng.random() < 0.85, "msgs": msgs, "fault": fault,
+            "fault_at": rng.randrange(nmsg), "pos": rng.randrange(1 << 16), "eof": rng.random() < 0.7,
+            "cutseed": rng.randrange(1 << 20)}
 
 
 def rand_cmd_body(rng):
@@ -593,6 +795,574 @@ def shell_line(reqs):
     return "C19 " + sx(["shell", items])
 
 
+# ------------------------------------------------------------------ round 4: running the implementation
+def unhx(s):
+    return b"" if s == "-" else bytes.fromhex(s)
+
+
+def hxl(parts):
+    return "(" + " ".join(hx(p) for p in parts) + ")"
+
+
+def code_bytes(code):
+    return code.encode("utf-8", "surrogatepass")
+
+
+def json_ok(f):
+    try:
+        json.loads(f.decode("utf-8"))
+        return True
+    except Exception:  # pylint: disable=broad-except
+        return False
+
+
+def parse_outcome(actx, code):
+    """what AstEval.parse does with the code, as the model's ParseOutcome s-expression"""
+    try:
+        actx.parse(code)
+        return "ok"
+    except Exception as exc:  # pylint: disable=broad-except
+        eof = "EOF while" in str(exc) or "expected an indented block" in str(exc)
+        if not hasattr(exc, "lineno"):
+            ln = "na"
+        elif exc.lineno is None:
+            ln = "none"
+        else:
+            ln = exc.lineno if exc.lineno >= 0 else "none"
+        return ["exc", isinstance(exc, SyntaxError), eof, ln]
+
+
+async def impl_handshake(ty, chunks):
+    from custom_components.pyscript.jupyter_kernel import ZmqSocket
+    reader = asyncio.StreamReader()
+    w = FakeWriter()
+    sock = ZmqSocket(reader, w, ty)
+    feeder = asyncio.ensure_future(feed_chunks(reader, chunks))
+    try:
+        await sock.handshake()
+        st = "ok"
+    except EOFError:
+        st = "eof"
+    except Exception:  # pylint: disable=broad-except
+        st = "bad"
+    await feeder
+    if st == "ok":
+        return f"ok {hx(bytes(w.buf))} {hx(bytes(reader._buffer))}"
+    return f"{st} {hx(bytes(w.buf))}"
+
+
+def new_kernel(name):
+    import interp_env
+    from custom_components.pyscript.jupyter_kernel import Kernel
+    interp_env.setup_stub(asyncio.get_running_loop())
+    g, a = interp_env.new_ctx(name)
+    cfg = {"key": KEY.decode(), "signature_scheme": "hmac-sha256", "no_connect_timeout": 3000}
+    k = Kernel(cfg, a, g, name)
+    a.add_logger_handler(k.console)
+    a.get_logger().propagate = False
+    jl = logging.getLogger("custom_components.pyscript.jupyter_kernel")
+    jl.propagate = False
+    jl.setLevel(logging.DEBUG if os.environ.get("VERIF_DEBUG") else logging.CRITICAL)
+    return k, g, a
+
+
+def impl_deserialize(wire):
+    k, _g, _a = new_kernel("jupyter_d")
+    seen = []
+    orig = k.msg_sign
+
+    def spy(lst):
+        seen.append(list(lst))
+        return orig(lst)
+    k.msg_sign = spy
+    try:
+        ids, _msg = k.deserialize_wire_msg(list(wire))
+    except IndexError:
+        return "err index"
+    except UnicodeDecodeError:
+        return "err json"
+    except json.JSONDecodeError:
+        return "err json"
+    except ValueError as e:
+        if "not in list" in str(e):
+            return "err nodelim"
+        if "Signatures do not match" in str(e):
+            return "err sig"
+        return "err ValueError"
+    except Exception as e:  # pylint: disable=broad-except
+        return f"err {type(e).__name__}"
+    return f"ok {hxl(ids)} {hxl(seen[-1] if seen else [])}"
+
+
+class CaptureSock:
+    def __init__(self):
+        self.msgs = []
+
+    async def send_multipart(self, parts):
+        self.msgs.append([bytes(p) for p in parts])
+
+
+class FakeServer:
+    def __init__(self):
+        self.closed = 0
+
+    def close(self):
+        self.closed += 1
+
+
+class Session:
+    """one real Kernel with in-memory connections on every channel and the real housekeeping task"""
+
+    def __init__(self, name):
+        import custom_components.pyscript.jupyter_kernel as jk
+        self.jk = jk
+        self.k, self.g, self.a = new_kernel(name)
+        k = self.k
+        self.servers = [FakeServer() for _ in range(5)]
+        (k.heartbeat_server, k.control_server, k.stdin_server, k.shell_server, k.iopub_server) = self.servers
+        self.deleted = []
+        self._orig_delete = jk.GlobalContextMgr.delete
+        jk.GlobalContextMgr.delete = lambda name: self.deleted.append(name)
+        self.hk = asyncio.ensure_future(k.housekeep_run())
+        k.tasks["housekeep"] = {self.hk}
+        self.iow = FakeWriter()
+        k.iopub_socket.add(jk.ZmqSocket(asyncio.StreamReader(), self.iow, "PUB"))
+        self.conns = {}
+
+    async def connect(self, name, listen, greeting=GREETING_OK + READY_DEALER):
+        rd, wr = asyncio.StreamReader(), FakeWriter()
+        if greeting:
+            rd.feed_data(greeting)
+        task = asyncio.ensure_future(listen(rd, wr))
+        self.conns[name] = (rd, wr, task)
+        for _ in range(12):
+            await asyncio.sleep(0)
+        return len(wr.buf)
+
+    def up(self):
+        return self.k.iopub_server is not None
+
+    async def settle(self, done, spins=3000):
+        for i in range(spins):
+            await asyncio.sleep(0 if i < 200 else 0.001)
+            if i >= 8 and done():
+                break
+        for _ in range(30):
+            await asyncio.sleep(0)
+
+    async def close(self):
+        tasks = [c[2] for c in self.conns.values()] + [self.hk]
+        for ts in (self.k.tasks.values() if isinstance(self.k.tasks, dict) else []):
+            tasks += list(ts)
+        for t in tasks:
+            t.cancel()
+        for t in tasks:
+            try:
+                await t
+            except BaseException:  # pylint: disable=broad-except
+                pass
+        self.jk.GlobalContextMgr.delete = self._orig_delete
+        try:
+            self.a.remove_logger_handler(self.k.console)
+        except Exception:  # pylint: disable=broad-except
+            pass
+
+
+def ev_wire(ev, k, code):
+    """the real multipart message of a session event (same shapes as Drv.sev?)"""
+    header = {"msg_id": f"m{k}", "msg_type": ev["mtype"], "session": "s", "username": "u", "version": "5.3"}
+    content = {"code": code, "cursor_pos": len(code), "store_history": ev["store"], "silent": False}
+    frames = [json.dumps(header).encode(), b"{}", b"{}", json.dumps(content).encode()]
+    idents = [f"id{j}".encode() for j in range(ev["idents"])]
+    kind = ev["kind"]
+    if kind == "extra":
+        frames = frames + [b"<IDS|MSG>", b"\x07"]
+    if kind == "badjson":
+        frames[1] = [b"\xff", b"{not json", b"", b"{'a': 1}"][ev["badvar"]]
+    if kind == "short":
+        frames = frames[:3]
+    sig = sign(KEY, frames)
+    if kind == "badsig":
+        sig = [b"zz", b"", sig[:-1] + (b"0" if sig[-1:] != b"0" else b"1"), sign(b"other", frames)][ev["badvar"]]
+    if kind == "nodelim":
+        return idents + [sig] + frames
+    if kind == "nosig":
+        return idents + [b"<IDS|MSG>"]
+    return idents + [b"<IDS|MSG>", sig] + frames
+
+
+def ev_code(ev):
+    return CELLS[ev["code"]][0] if isinstance(ev["code"], int) else ev["code"]
+
+
+def render_outs(outs):
+    """decoded real messages of one event in the model's canonical order and format"""
+    iop = [o for o in outs if o["stream"] == "iopub" and o["type"] != "stream"]
+    oth = [o for o in outs if o["stream"] != "iopub"]
+
+    def ren(o):
+        t, c = o["type"], o["content"] if isinstance(o["content"], dict) else {}
+        sub = "-"
+        if t == "status":
+            sub = c.get("execution_state", "?")
+        elif t == "execute_reply":
+            sub = c.get("status", "?")
+        elif t == "is_complete_reply":
+            sub = c.get("status", "?")
+            if sub == "incomplete":
+                sub += f":{len(c.get('indent', ''))}"
+        cnt = c.get("execution_count", "-")
+        pay = "-"
+        if t == "execute_result":
+            pay = "3"
+        if (t == "execute_reply" and sub == "error") or t == "error":
+            pay = "2"
+        par = o["parent"][1:] if o["parent"] else "-"
+        return f"({o['stream']} {hxl(o['idents'])} {t} {sub} {par} {cnt} {pay})"
+    pre, post = [], []
+    for o in iop:
+        t = o["type"]
+        if post or t == "error" or (t == "status" and o["content"].get("execution_state") == "idle"):
+            post.append(o)
+        else:
+            pre.append(o)
+    return "[" + " ".join([ren(o) for o in pre] + [ren(o) for o in oth] + [ren(o) for o in post]) + "]"
+
+
+async def impl_session(events):
+    s = Session("jupyter_s")
+    k = s.k
+    listen = {"shell": k.shell_listen, "control": k.control_listen, "iopub": k.iopub_listen, "stdin": k.stdin_listen}
+    for ch, fn in listen.items():
+        await s.connect(ch, fn)
+    for _ in range(20):
+        await asyncio.sleep(0)
+    out, details = [], []
+    for idx, ev in enumerate(events):
+        wire = ev_wire(ev, idx, ev_code(ev))
+        rd = s.conns[ev["ch"]][0]
+        marks = {n: len(s.conns[n][1].buf) for n in s.conns}
+        i0 = len(s.iow.buf)
+        was_up = s.up()
+        rd.feed_data(py_encode(wire))
+        good = ev["kind"] in ("ok", "extra")
+
+        def done():
+            if not s.up():
+                return True
+            if not was_up or ev["ch"] in ("iopub", "stdin"):
+                return True
+            if ev["ch"] == "shell" and good:
+                return b'"idle"' in bytes(s.iow.buf[i0:]) or s.conns["shell"][2].done()
+            if ev["ch"] == "control" and good and ev["mtype"] != "shutdown_request":
+                return True
+            return False
+        await s.settle(done)
+        outs = []
+        for n in ("shell", "control", "stdin"):
+            for m in split_msgs(bytes(s.conns[n][1].buf[marks[n]:])):
+                outs.append(decode_out(m, n, None))
+        for m in split_msgs(bytes(s.iow.buf[i0:])):
+            outs.append(decode_out(m, "iopub", None))
+        out.append(f"{render_outs(outs)} up={1 if s.up() else 0} n={len(s.deleted)} count={k.execution_count}")
+        details.append({"ev": idx, "up": s.up(), "was_up": was_up, "n": len(s.deleted), "count": k.execution_count,
+                        "outs": [{kk: (vv if kk != "idents" else [hx(i) for i in vv]) for kk, vv in o.items()} for o in outs]})
+    await s.close()
+    return " ".join(out), details
+
+
+def sess_line(events, actx):
+    items = []
+    for k, ev in enumerate(events):
+        code = ev_code(ev)
+        kindc = CELLS[ev["code"]][1] if isinstance(ev["code"], int) else "none"
+        res = ["v", 3] if kindc == "v" else (["e", 2] if kindc == "e" else "none")
+        po = parse_outcome(actx, code) if ev["mtype"] == "is_complete_request" else "ok"
+        info = [k, hx(ev["mtype"].encode()), ev["store"], k, res, hx(code_bytes(code)) if ev["mtype"] == "is_complete_request" else "-", po]
+        items.append([ev["ch"], ev["kind"], [hx(f"id{j}".encode()) for j in range(ev["idents"])], info])
+    return "C19 " + sx(["sess", "cur", items])
+
+
+REPLIED = {"execute_request", "kernel_info_request", "complete_request", "is_complete_request", "comm_info_request", "history_request"}
+
+
+def sess_verdict(c):
+    """the property on the real behaviour, independent of the model"""
+    evs, det = c.payload["events"], c.payload.get("_details", [])
+    count, alive = 1, True
+    for ev, d in zip(evs, det):
+        outs = d["outs"]
+        who = f"event {d['ev']} ({ev['ch']} {ev['mtype'] or 'empty-type'} {ev['kind']})"
+        if not alive:
+            if outs:
+                return f"{who}: the session had ended, yet messages were sent"
+            continue
+        if d["n"] > 1:
+            return f"{who}: the session was shut down {d['n']} times"
+        good = ev["kind"] in ("ok", "extra")
+        if ev["ch"] in ("iopub", "stdin"):
+            if outs or not d["up"]:
+                return f"{who}: traffic on a channel the kernel only reads produced output or ended the session"
+            continue
+        if not good:
+            if outs:
+                return f"{who}: a message that must be rejected was answered: {[o['type'] for o in outs]}"
+            if d["count"] != count:
+                return f"{who}: a rejected message changed the execution counter"
+            alive = d["up"]
+            continue
+        for o in outs:
+            if not o["signed"]:
+                return f"{who}: emission {o['type']} not signed with the session key"
+            if o["type"] != "stream" and o["parent"] != f"m{d['ev']}":
+                return f"{who}: emission {o['type']} has parent {o['parent']}"
+        want_ids = [hx(f"id{j}".encode()) for j in range(ev["idents"])]
+        if ev["ch"] == "control":
+            ctl = [o for o in outs if o["stream"] == "control"]
+            if ev["mtype"] == "shutdown_request":
+                if [o["type"] for o in ctl] != ["shutdown_reply"] or ctl[0]["idents"] != want_ids or len(outs) != 1:
+                    return f"{who}: expected exactly one shutdown_reply on control addressed to the requester, got {[(o['stream'], o['type']) for o in outs]}"
+                if d["up"] or d["n"] != 1:
+                    return f"{who}: shutdown_request did not end the session exactly once (up={d['up']}, shutdowns={d['n']})"
+                alive = False
+            elif outs or not d["up"]:
+                return f"{who}: unexpected output / session end"
+            continue
+        shell = [o for o in outs if o["stream"] == "shell"]
+        iop = [o for o in outs if o["stream"] == "iopub"]
+        if [o for o in outs if o["stream"] not in ("shell", "iopub")]:
+            return f"{who}: output on a foreign channel"
+        want = [ev["mtype"].replace("_request", "_reply")] if ev["mtype"] in REPLIED else []
+        if [o["type"] for o in shell] != want:
+            return f"{who}: replies on the requesting socket {[o['type'] for o in shell]}, expected {want}"
+        if shell and shell[0]["idents"] != want_ids:
+            return f"{who}: reply addressed to {shell[0]['idents']} instead of {want_ids}"
+        st = [o["content"].get("execution_state") for o in iop if o["type"] == "status"]
+        if st != ["busy", "idle"] or iop[0]["type"] != "status" or iop[-1]["type"] != "status":
+            return f"{who}: status broadcasts {st} do not bracket the request with busy ... idle"
+        if not d["up"]:
+            return f"{who}: a valid request ended the session"
+        if ev["mtype"] == "execute_request":
+            if shell[0]["content"].get("execution_count") != count:
+                return f"{who}: execute_reply count {shell[0]['content'].get('execution_count')} != {count}"
+            if ev["store"]:
+                count += 1
+        if d["count"] != count:
+            return f"{who}: counter {d['count']} != {count}"
+    return None
+
+
+async def impl_codes(codes):
+    """is_complete_request and complete_request for each code on one real session; the session must answer all of them"""
+    s = Session("jupyter_c")
+    k = s.k
+    await s.connect("shell", k.shell_listen)
+    res = []
+    for idx, code in enumerate(codes):
+        row = []
+        for mt in ("is_complete_request", "complete_request"):
+            ev = {"mtype": mt, "store": True, "idents": 1, "kind": "ok", "badvar": 0}
+            s0, i0 = len(s.conns["shell"][1].buf), len(s.iow.buf)
+            if not s.up():
+                row.append("dead")
+                continue
+            s.conns["shell"][0].feed_data(py_encode(ev_wire(ev, idx, code)))
+            await s.settle(lambda: not s.up() or b'"idle"' in bytes(s.iow.buf[i0:]) or s.conns["shell"][2].done())
+            reps = [decode_out(m, "shell", None) for m in split_msgs(bytes(s.conns["shell"][1].buf[s0:]))]
+            sts = [decode_out(m, "iopub", None)["content"].get("execution_state") for m in split_msgs(bytes(s.iow.buf[i0:]))]
+            if len(reps) != 1 or sts != ["busy", "idle"] or not s.up():
+                row.append(f"noreply({len(reps)} replies, status {sts}, session {'up' if s.up() else 'down'})")
+            elif mt == "is_complete_request":
+                cc = reps[0]["content"]
+                row.append(cc.get("status", "?") + (f":{len(cc.get('indent', ''))}" if cc.get("status") == "incomplete" else ""))
+            else:
+                cc = reps[0]["content"]
+                row.append(f"root={cc.get('cursor_end', 0) - cc.get('cursor_start', 0)}")
+        res.append(" ".join(row))
+    await s.close()
+    return res
+
+
+async def impl_hk(events):
+    s = Session("jupyter_h")
+    k = s.k
+    dummies = []
+    for e in events:
+        if not s.hk.done() and e != "external":
+            if e == "stdout":
+                await k.housekeep_q.put(["stdout", "text"])
+            elif e == "handshake":
+                q = asyncio.Queue(0)
+                await k.housekeep_q.put(["handshake", q, 0])
+            elif e == "register":
+                t = asyncio.ensure_future(asyncio.sleep(100000))
+                dummies.append(t)
+                await k.housekeep_q.put(["register", "shell", t])
+            elif e == "unregister":
+                await k.housekeep_q.put(["unregister", "shell", dummies[-1] if dummies else None])
+            elif e == "shutdown":
+                await k.housekeep_q.put(["shutdown"])
+        elif e == "external":
+            await k.session_shutdown()
+        else:
+            k.housekeep_q.put_nowait(["shutdown"] if e == "shutdown" else ["register", "shell", None] if e == "register"
+                                     else ["unregister", "shell", None] if e == "unregister" else ["handshake", asyncio.Queue(0), 0]
+                                     if e == "handshake" else ["stdout", "text"])
+        for _ in range(25):
+            await asyncio.sleep(0)
+    nstdout = len(split_msgs(bytes(s.iow.buf)))
+    closed = [sv.closed for sv in s.servers]
+    out = f"up={1 if s.up() else 0} n={len(s.deleted)} cnt={k.task_cnt} max={k.task_cnt_max} stdout={nstdout}"
+    for t in dummies:
+        t.cancel()
+    await s.close()
+    return out, closed
+
+
+async def impl_heartbeat(chunks):
+    s = Session("jupyter_b")
+    hs = await s.connect("hb", s.k.heartbeat_listen)
+    rd, wr, task = s.conns["hb"]
+    await feed_chunks(rd, chunks, eof=True)
+    for _ in range(50):
+        await asyncio.sleep(0)
+        if task.done():
+            break
+    echo = bytes(wr.buf[hs:])
+    up = s.up()
+    await s.close()
+    return echo, up
+
+
+# ------------------------------------------------------------------ one shell connection, bytes in -> bytes out
+def conn_build(spec):
+    """(byte stream, distinct messages [(frames0, frames3, info-sexp)]) for a connection spec"""
+    import random
+    rng = random.Random(spec["cutseed"])
+    stream = unhx(spec["greeting"])
+    if spec["gwhat"] == "short":
+        return stream, []
+    if spec["ready"]:
+        stream += READY_DEALER
+    infos = []
+    import interp_env
+    _g, actx = interp_env.new_ctx("jupyter_p")
+    for k, m in enumerate(spec["msgs"]):
+        code = CELLS[m["cell"]][0]
+        ev = {"mtype": m["mtype"], "store": m["store"], "idents": m["idents"], "kind": "ok", "badvar": 0}
+        wire = ev_wire(ev, k, code)
+        d = wire.index(b"<IDS|MSG>")
+        kindc = CELLS[m["cell"]][1] if m["mtype"] == "execute_request" else "none"
+        res = ["v", 3] if kindc == "v" else (["e", 2] if kindc == "e" else "none")
+        po = parse_outcome(actx, code) if m["mtype"] == "is_complete_request" else "ok"
+        infos.append([[hx(wire[d + 2]), hx(wire[d + 5])],
+                      [k, hx(m["mtype"].encode()), m["store"], k, res, hx(code_bytes(code)) if m["mtype"] == "is_complete_request" else "-", po]])
+        enc = py_encode(wire)
+        f = spec["fault"] if k == spec["fault_at"] else "none"
+        if f == "truncate":
+            stream += enc[:spec["pos"] % len(enc)]
+            break
+        if f == "oversize":
+            stream += bytes([3]) + (1 << 40).to_bytes(8, "big") + enc
+            break
+        if f == "more-last":
+            enc = py_encode(wire[:-1]) [:-0 or None]
+            last = wire[-1]
+            enc = py_encode(wire[:-1] + [b"dummy"])[: -(2 + 5)] + bytes([1, len(last)]) + last
+        if f == "badjson":
+            w2 = list(wire)
+            w2[d + 3] = b"{bad"
+            w2[d + 1] = sign(KEY, w2[d + 2:])
+            enc = py_encode(w2)
+        if f == "nonhexsig":
+            w2 = list(wire)
+            w2[d + 1] = b"zz" * 32
+            enc = py_encode(w2)
+        if f == "nodelim":
+            enc = py_encode(wire[:d] + wire[d + 1:])
+        if f == "short":
+            enc = py_encode(wire[:-1])
+        if f == "cmd-bad":
+            enc = bytes([4, 0]) + enc
+        if f == "cmd-mid":
+            body = b"\x04PING\x03ttl\x00\x00\x00\x01x"
+            enc = bytes([4, len(body)]) + body + enc
+        if f == "flip-byte":
+            bb = bytearray(enc)
+            bb[spec["pos"] % len(bb)] ^= 1 << (spec["pos"] % 8)
+            enc = bytes(bb)
+        stream += enc
+        if f == "replay":
+            stream += enc
+    return stream, infos
+
+
+def conn_canon(written, items, end, count):
+    io = [i for i in items if i.startswith("(iopub ")]
+    sh = [i for i in items if i.startswith("(shell ")]
+    ot = [i for i in items if not i.startswith("(iopub ") and not i.startswith("(shell ")]
+    return f"{written} iopub={' '.join(io)} shell={' '.join(sh)} other={' '.join(ot)} end={end} count={count}"
+
+
+async def impl_conn(spec):
+    import random
+    stream, infos = conn_build(spec)
+    rng = random.Random(spec["cutseed"])
+    cuts = sorted(set(rng.randrange(1, max(2, len(stream))) for _ in range(rng.randrange(0, 4)))) if len(stream) > 2 else []
+    chunks = cut(stream, cuts)
+    s = Session("jupyter_n")
+    k = s.k
+    await s.connect("B", k.shell_listen)
+    rd, wr = asyncio.StreamReader(), FakeWriter()
+    task = asyncio.ensure_future(k.shell_listen(rd, wr))
+    s.conns["A"] = (rd, wr, task)
+    for ch in chunks:
+        if ch:
+            rd.feed_data(ch)
+        for _ in range(6):
+            await asyncio.sleep(0)
+    rd.feed_eof()
+    await s.settle(lambda: task.done() and (not s.up() or k.housekeep_q.empty()), spins=4000)
+    hs_len = 64 + 43
+    buf = bytes(wr.buf)
+    outs = [decode_out(m, "shell", None) for m in split_msgs(buf[hs_len:])] + \
+           [decode_out(m, "iopub", None) for m in split_msgs(bytes(s.iow.buf))]
+    items = []
+    for o in outs:
+        if o["type"] == "stream":
+            continue
+        r = render_outs([o])
+        items.append(r[1:-1])
+    up_after = s.up()
+    b_ok = None
+    if up_after:
+        ev = {"mtype": "kernel_info_request", "store": True, "idents": 1, "kind": "ok", "badvar": 0}
+        b0 = len(s.conns["B"][1].buf)
+        i0 = len(s.iow.buf)
+        s.conns["B"][0].feed_data(py_encode(ev_wire(ev, 77, "")))
+        await s.settle(lambda: b'"idle"' in bytes(s.iow.buf[i0:]) or not s.up())
+        b_ok = [decode_out(m, "shell", None)["type"] for m in split_msgs(bytes(s.conns["B"][1].buf[b0:]))] == ["kernel_info_reply"]
+    end = "eof" if up_after else "down"
+    res = conn_canon(hx(buf[:hs_len]), items, end, k.execution_count)
+    await s.close()
+    return res, chunks, infos, stream, b_ok, wr.closed
+
+
+def conn_line(chunks, infos, stream):
+    body = stream[64:]
+    msgs = split_msgs(body) if len(stream) >= 64 else []
+    oks, sigtab = set(), []
+    for m in msgs:
+        for f in m:
+            if json_ok(f):
+                oks.add(hx(f))
+        if b"<IDS|MSG>" in m:
+            d = m.index(b"<IDS|MSG>")
+            fr = m[d + 2:]
+            sigtab.append([[hx(f) for f in fr], hx(sign(KEY, fr))])
+    return "C19 " + sx(["conn", "cur", "cur", [hx(c) for c in chunks], sorted(oks), sigtab, infos])
+
+
 def run_impl(cases):
     loop = asyncio.new_event_loop()
     asyncio.set_event_loop(loop)
@@ -679,6 +1449,65 @@ async def _run_one(c):
         c.impl = None
         c.line = []
         c.spec = None
+    elif k == "hs":
+        chunks = [unhx(x) for x in p["chunks"]]
+        c.impl = await impl_handshake(p["type"], chunks)
+        c.line = ["C19 " + sx(["hs", "cur", hx(p["type"].encode()), p["chunks"]])]
+        c.spec = None
+    elif k == "des":
+        wire = [unhx(x) for x in p["wire"]]
+        c.impl = impl_deserialize(wire)
+        oks = sorted({hx(f) for f in wire if json_ok(f)})
+        sigs = [hx(sign(KEY, wire[j:])) for j in range(len(wire) + 1)]
+        c.line = ["C19 " + sx(["des", p["wire"], oks, sigs])]
+        c.spec = None
+    elif k == "ser":
+        kk, _g, _a = new_kernel("jupyter_e")
+        cap = CaptureSock()
+        ids = [unhx(x) for x in p["idents"]]
+        await kk.send(cap, p["mtype"], {"a": 1}, parent_header={"msg_id": "p"}, identities=list(ids))
+        parts = cap.msgs[0]
+        c.impl = "ok " + hxl(parts)
+        c.payload["_parts"] = [hx(x) for x in parts]
+        c.line = ["C19 " + sx(["ser", p["idents"], [hx(x) for x in parts[-4:]], hx(sign(KEY, parts[-4:]))])]
+        c.spec = impl_deserialize(parts)
+    elif k == "code":
+        res = await impl_codes(p["codes"])
+        c.impl = " | ".join(res)
+        import interp_env
+        _g, actx = interp_env.new_ctx("jupyter_p")
+        c.line = []
+        for code in p["codes"]:
+            c.line.append("C19 " + sx(["isc", "cur", hx(code_bytes(code)), parse_outcome(actx, code)]))
+            c.line.append("C19 " + sx(["croot", hx(code_bytes(code.lower())) if code.isascii() else "-"]))
+        c.payload["_ascii"] = [code.isascii() for code in p["codes"]]
+        c.spec = None
+    elif k == "sess":
+        c.impl, det = await impl_session(p["events"])
+        c.payload["_details"] = det
+        import interp_env
+        _g, actx = interp_env.new_ctx("jupyter_p")
+        c.line = [sess_line(p["events"], actx)]
+        c.spec = None
+    elif k == "hk":
+        c.impl, closed = await impl_hk(p["events"])
+        c.payload["_closed"] = closed
+        c.line = ["C19 " + sx(["hk", p["events"]])]
+        c.spec = None
+    elif k == "conn":
+        res, chunks, infos, stream, b_ok, closed = await impl_conn(p["spec"])
+        c.impl = res
+        c.payload["_b_ok"] = b_ok
+        c.payload["_closed"] = closed
+        c.line = [conn_line(chunks, infos, stream)]
+        c.spec = None
+    elif k == "hb":
+        chunks = [unhx(x) for x in p["chunks"]]
+        echo, up = await impl_heartbeat(chunks)
+        c.impl = f"ok {hx(echo)} -" if echo else "err eof"
+        c.payload["_up"] = up
+        c.line = ["C19 " + sx(["hb", p["chunks"]])]
+        c.spec = None
 
 
 # the generic runner expects one line per case; C19 cases have several -> custom execute
@@ -697,6 +1526,23 @@ def _drive_multi(cases):
         k = c.payload["kind"]
         if k in ("roundtrip", "single"):
             c.model = o[0] + " | " + " | ".join(sorted(set(o[1:]))) if o else None
+        elif k == "conn":
+            m = re.match(r"^(\S+) (.*) end=(\S+) count=(\d+)$", o[0]) if o else None
+            if m:
+                items = re.findall(r"\((?:shell|iopub|control|stdin|hb) \([^)]*\) [^)]*\)", m.group(2))
+                end = "eof" if m.group(3) in ("eof",) else "down"
+                c.model = conn_canon(m.group(1), items, end, m.group(4))
+            else:
+                c.model = o[0] if o else None
+        elif k == "code":
+            rows = []
+            for i in range(0, len(o), 2):
+                root = o[i + 1].split()[-1] if o[i + 1].startswith("ok") else "?"
+                nroot = 0 if root == "-" else len(root) // 2
+                rows.append(o[i] + " " + (f"root={nroot}" if c.payload["_ascii"][i // 2] else "root=*"))
+            c.model = " | ".join(rows)
+            if c.impl is not None:      # non-ASCII code: \w is outside the model, compare the is_complete part only
+                c.impl = " | ".join(r if c.payload["_ascii"][j] else r.split()[0] + " root=*" for j, r in enumerate(c.impl.split(" | ")))
         else:
             c.model = o[0] if o else None
 
@@ -711,6 +1557,62 @@ def verdict(c):
         return None
     if k == "shell":
         return shell_verdict(c)
+    if k == "sess":
+        return sess_verdict(c)
+    if k == "hs":
+        stream = b"".join(bytes.fromhex(x) for x in c.payload["chunks"] if x != "-")
+        g = stream[:64]
+        acc = c.impl.startswith("ok ")
+        # (that a peer with an invalid greeting is accepted as well is C19_handshake_cex – recorded, not part of the property)
+        if greeting_valid(g) and not acc:
+            return "handshake refused a valid ZMTP 3.x NULL greeting"
+        if acc and c.impl.split()[2] != hx(stream[64:]):
+            return "handshake did not leave exactly the bytes after the greeting unread"
+        return None
+    if k == "des":
+        wire = [bytes.fromhex(x) if x != "-" else b"" for x in c.payload["wire"]]
+        d = wire.index(b"<IDS|MSG>") if b"<IDS|MSG>" in wire else None
+        good = (d is not None and len(wire) >= d + 6 and all(json_ok(f) for f in wire[d + 2:d + 6])
+                and sign(KEY, wire[d + 2:]) == wire[d + 1])
+        if c.impl.startswith("ok") != good:
+            return f"deserialize_wire_msg {'accepted' if not good else 'rejected'} a message that is {'not ' if not good else ''}well-formed and correctly signed"
+        if good and c.impl != f"ok {hxl(wire[:d])} {hxl(wire[d + 2:])}":
+            return "deserialize_wire_msg returned other identities / frames than were sent"
+        return None
+    if k == "ser":
+        ids = [x for x in c.payload["idents"]]
+        if "3c4944537c4d53473e" in ids:
+            return None
+        parts = c.payload.get("_parts", [])
+        if not c.spec.startswith(f"ok ({' '.join(ids)}) ") or parts[:len(ids)] != ids:
+            return "a message written by Kernel.send is not read back by deserialize_wire_msg with its identities"
+        return None
+    if k == "code":
+        for code, r in zip(c.payload["codes"], c.impl.split(" | ")):
+            if "noreply" in r or "dead" in r:
+                return f"is_complete_request / complete_request for a {len(code)}-character code string: not exactly one reply in a busy/idle bracket with the session still alive ({r[:90]})"
+        return None
+    if k == "hk":
+        f = dict(x.split("=") for x in c.impl.split())
+        trig = any(e in ("shutdown", "external") for e in c.payload["events"])
+        if int(f["n"]) > 1 or (int(f["n"]) == 1) != (f["up"] == "0"):
+            return f"session_shutdown ran {f['n']} times, session up={f['up']}"
+        if trig and f["up"] != "0":
+            return "a shutdown message / outside call did not end the session"
+        if f["up"] == "0" and any(x != 1 for x in c.payload.get("_closed", [])):
+            return f"servers closed {c.payload.get('_closed')} times on shutdown"
+        return None
+    if k == "conn":
+        if c.payload.get("_b_ok") is False:
+            return "after a connection was served and closed, a second healthy shell connection of the same session is no longer answered"
+        return None
+    if k == "hb":
+        stream = b"".join(bytes.fromhex(x) for x in c.payload["chunks"] if x != "-")
+        msgs = split_msgs(stream)
+        want = py_encode([b"", b"".join(msgs[0])]) if msgs else b""
+        if c.impl != f"ok {hx(want)} -":
+            return "heartbeat: the echo is not the ping's payload behind an empty delimiter frame"
+        return None
     if k == "interleave":
         return interleave_verdict(c)
     if k == "concurrent-send":
@@ -791,6 +1693,18 @@ def shell_verdict(c):
 
 def common_hex(b):
     return hx(b)
+
+
+def extra_coverage(cases):
+    hs = [c for c in cases if c.payload.get("kind") == "hs"]
+    inv = [c for c in hs if c.payload["what"] not in ("valid", "short") and (c.impl or "").startswith("ok ")]
+    ends = {}
+    for c in cases:
+        if c.payload.get("kind") == "conn" and c.impl:
+            key = c.payload["spec"]["fault"] + "->" + c.impl.split(" end=")[-1].split()[0]
+            ends[key] = ends.get(key, 0) + 1
+    return {"invalid_greetings_accepted_by_handshake (C19_handshake_cex, recorded not judged)": len(inv),
+            "connection_faults_to_outcome": ends}
 
 
 def classify(c, reason):
